@@ -41,11 +41,8 @@ theorem src :
     Gen.Address.src_address_NFTAddress_Bytes = Expect.Address_src_address_NFTAddress_Bytes ∧
     Gen.Address.src_address_Ed25519Address_Version = Expect.Address_src_address_Ed25519Address_Version ∧
     Gen.Address.src_address_AliasAddress_Version = Expect.Address_src_address_AliasAddress_Version ∧
-    Gen.Address.src_address_NFTAddress_Version = Expect.Address_src_address_NFTAddress_Version ∧
-    Gen.Address.src_migration_Encode = Expect.Address_src_migration_Encode ∧
-    Gen.Address.src_migration_Decode = Expect.Address_src_migration_Decode ∧
-    Gen.Address.src_guards_IsTrytesOfExactLength = Expect.Address_src_guards_IsTrytesOfExactLength :=
-  ⟨rfl, rfl, rfl, rfl, rfl, rfl, rfl, rfl, rfl, rfl, rfl, rfl, rfl⟩
+    Gen.Address.src_address_NFTAddress_Version = Expect.Address_src_address_NFTAddress_Version :=
+  ⟨rfl, rfl, rfl, rfl, rfl, rfl, rfl, rfl, rfl, rfl⟩
 
 /-- everything else the package declares (imports, constants, types, variables, build constraints and the functions not
 pinned one by one) is unchanged too: no declaration of the modelled packages can change without a tie theorem failing. -/
